@@ -54,6 +54,10 @@ class SymCtx(BaseCtx):
         return v
     def bytes(self, name, n):
         return from_items([self.int('%s[%d]' % (name, i), 0, 255) for i in range(n)])
+    def tail(self, name):
+        """a message of ARBITRARY length and content (see sbytes.SBytesT); in concrete mode a byte string of some length"""
+        from .sbytes import SBytesT
+        return SBytesT((), self.int(name + '#', 0, (1 << 64) - 1))
     def call(self, f, *a, **k):
         return self.I.call(f, a, k)
     def binop(self, op, a, b):
